@@ -36,6 +36,12 @@ class _M(Mini):
             cs = c if isinstance(c, tuple) and not (len(c) == 3 and c[0] == 'boundmethod') else (c,)
             if isinstance(o, Obj) and '_cls' in o.attrs:
                 return any(o.attrs['_cls'] == x for x in cs)
+            if not isinstance(o, Obj):
+                # a concrete value (an axis argument) against builtin types
+                try:
+                    return super().builtin(name, args, kwargs, node)
+                except Unsupported:
+                    return False
             return False
         if name == 'str':
             return args[0] if isinstance(args[0], str) else repr(args[0])
@@ -116,6 +122,13 @@ def node_worlds(repo: Repo, module: str = 'plinio.graph.inspection') -> List[Tup
                 worlds.append((f'{k} [{tag}]', {'op': 'call_function', 'target': v,
                                                'submodule': None, 'dim': dim, 'token': k,
                                                'tag': tag, 'form': form}))
+        # the same two axes of a rank-4 tensor counted from the end ([dim=-3] is the features
+        # axis, [dim=-2] a spatial one); the node carries the propagated shape
+        for dim in (-3, -2):
+            worlds.append((f'{k} [dim={dim}]', {'op': 'call_function', 'target': v,
+                                                'submodule': None, 'dim': dim, 'token': k,
+                                                'tag': f'dim={dim}', 'form': 'pos',
+                                                'shape': (2, 3, 5, 7)}))
     for k, v in meths:
         worlds.append((k, {'op': 'call_method', 'target': v, 'submodule': None, 'dim': 1,
                            'token': k, 'tag': ''}))
@@ -177,9 +190,14 @@ def classify(repo: Repo, preds: List[str], module: str = 'plinio.graph.inspectio
             args, kwargs = (inp,), {'dim': w['dim'], 'start_dim': w['dim']}
         else:
             args, kwargs = (inp, w['dim']), {}
+        meta = {}
+        if w.get('shape') is not None:
+            tm = Obj('TensorMetadata')
+            tm.attrs['shape'] = w['shape']
+            meta['tensor_meta'] = tm
         node.attrs.update({'op': w['op'], 'target': w['target'],
                            'all_input_nodes': inp,     # a 2-input node
-                           'args': args, 'kwargs': kwargs, 'meta': {}, 'name': 'node'})
+                           'args': args, 'kwargs': kwargs, 'meta': meta, 'name': 'node'})
         parent = Obj('GraphModule')
 
         def get_submodule(name, _w=w):
